@@ -40,7 +40,8 @@ CATALOGUE = {
     "packed": _PACKED_COMMON + ["P.x5c-leaf-not-signer"],
     "packed-self": _PACKED_COMMON + ["P.self-alg-disagrees"],
     "fido-u2f": [
-        "U.sig-missing", "U.x5c-missing", "U.x5c-two", "U.aaguid-nonzero", "U.leaf-rsa", "U.leaf-p384",
+        "U.sig-missing", "U.x5c-missing", "U.x5c-two", "U.aaguid-nonzero", "U.leaf-rsa", "U.leaf-p384", "U.leaf-secp256k1",
+        "U.leaf-brainpoolp256r1",
         "U.credkey-okp", "U.credkey-rsa", "U.sig-no-reserved-byte", "U.sig-other-rpidhash", "U.sig-other-cdj",
         "U.sig-other-credid", "U.sig-other-pubkey", "U.sig-other-key", "U.sig-other-credid-rawid-follows"],
     "tpm": [
@@ -61,7 +62,7 @@ CATALOGUE = {
         "K.purpose-verify", "K.purpose-absent"],
     "android-safetynet": [
         "S.ver-missing", "S.response-missing", "S.jws-two-parts", "S.jws-four-parts", "S.nonce-other-data",
-        "S.basicintegrity-false", "S.basicintegrity-missing", "S.ts-past", "S.ts-future", "S.cn-other", "S.cn-missing",
+        "S.basicintegrity-false", "S.basicintegrity-missing", "S.ts-past", "S.ts-future", "S.ts-in-seconds", "S.ts-in-microseconds", "S.ts-zero", "S.cn-other", "S.cn-missing",
         "S.alg-es256", "S.sig-other-key", "S.payload-altered"],
     "chain": list(ca.CHAIN_FAULTS),
 }
@@ -107,6 +108,8 @@ class RegRequest:
     base_time: Optional[datetime.datetime] = None
     tpm_name_alg: int = tpm.TPM_ALG_SHA256
     tpm_vendor: str = "id:414D4400"
+    envelope_id: Optional[bytes] = None                 # rawId (and id) of the PublicKeyCredential envelope when they are to
+                                                        # differ from the attested credential id (nothing compares the two)
     tpm_san_extra_dnsname_first: bool = False          # a conformant variation: an additional dNSName before the directoryName
     cd_kwargs: dict = field(default_factory=dict)
 
@@ -338,6 +341,9 @@ def _credential(b: _Build, attestation_object: bytes) -> dict:
         other = sha256(b"some other key handle" + b.cred.cred_id)
         return {"id": b64url(other), "raw_id": other, "type": "public-key", "client_data_json": b.cdj,
                 "attestation_object": attestation_object, "transports": None}
+    if b.req.envelope_id is not None:
+        return {"id": b64url(b.req.envelope_id), "raw_id": b.req.envelope_id, "type": "public-key", "client_data_json": b.cdj,
+                "attestation_object": attestation_object, "transports": None}
     return {"id": _credential_id_text(b), "raw_id": b.cred.cred_id,
             "type": "other" if b.has("R.cred-type") else "public-key",
             "client_data_json": b.cdj, "attestation_object": attestation_object, "transports": None}
@@ -448,6 +454,10 @@ def _u2f_attestation_key(b: _Build):
         return keys.get("rsa", 1)
     if b.has("U.leaf-p384"):
         return keys.get("p384", 0)
+    if b.has("U.leaf-secp256k1"):                       # 256-bit curves that are not P-256
+        return keys.get("secp256k1", 0)
+    if b.has("U.leaf-brainpoolp256r1"):
+        return keys.get("brainpoolp256r1", 0)
     return b.req.att_key or keys.get("p256", 1)
 
 
@@ -690,6 +700,19 @@ def _android_key(b: _Build) -> dict:
 
 # ------------------------------------------------------------------------------------ android-safetynet
 
+def _snet_timestamp(b: _Build, shift: int) -> int:
+    """timestampMs is milliseconds since the epoch; the unit-confusion faults put the right instant in the wrong unit (which,
+    read as milliseconds, is decades away from the verifier's clock)"""
+    t = b.base_time.timestamp() + shift
+    if b.has("S.ts-in-seconds"):
+        return int(t)
+    if b.has("S.ts-in-microseconds"):
+        return int(t * 1_000_000)
+    if b.has("S.ts-zero"):
+        return 0
+    return int(t * 1000)
+
+
 def _compact_json(obj) -> bytes:
     return json.dumps(obj, separators=(",", ":")).encode("utf-8")
 
@@ -697,7 +720,7 @@ def _compact_json(obj) -> bytes:
 def _safetynet_payload(b: _Build) -> dict:
     shift = -60 if b.has("S.ts-past") else 60 if b.has("S.ts-future") else 0
     payload = {"nonce": base64.b64encode(sha256(_att_to_be_signed(b, "S.nonce-other-data", None))).decode("ascii"),
-               "timestampMs": int((b.base_time.timestamp() + shift) * 1000),
+               "timestampMs": _snet_timestamp(b, shift),
                "apkPackageName": "com.google.android.gms",
                "apkDigestSha256": base64.b64encode(sha256(b"sim apk")).decode("ascii"),
                "ctsProfileMatch": True,
